@@ -7,6 +7,8 @@ import (
 	"net/netip"
 	"time"
 
+	"github.com/scionproto/scion/pkg/slayers"
+
 	"example.com/scion-time/net/ntp"
 
 	"verif.local/sim/simcore"
@@ -137,6 +139,25 @@ func c06IdentityWorld(r *simcore.Run) any {
 			kind := "basic"
 			var victim *ident
 			var named *c06Exchange
+			if overSCION && tp.Bool(1, 6, "echo") {
+				// an SCMP echo request in between: answered by the same listener sockets, and of no
+				// consequence for what they record about NTP exchanges afterwards
+				ia := scCliIA
+				if x.ia == scOthIA.String() {
+					ia = scOthIA
+				}
+				raw := buildSCION(ia, scSrvIA, x.host, scSrvIP, 0, 0, nil, slayers.SCMPTypeEchoRequest, []byte("echo between exchanges"))
+				e := net.NewDatagram(netip.AddrPortFrom(netip.MustParseAddr(scRouterIP(0)), scRouterPort), netip.AddrPortFrom(netip.MustParseAddr(scSrvIP), scSvcPort), raw, "scripted echo request")
+				net.Inject(e, lat())
+				if r.Sleep(fmt.Sprintf("echo:%d", k), cliNode, 5*time.Millisecond).Killed {
+					return
+				}
+				if len(replies[e.ID]) != 1 {
+					r.Fail("C06", "listener/replies", "step %d: echo request of (%s,%s): %d replies", k, x.ia, x.host, len(replies[e.ID]))
+					return
+				}
+				r.Probe("echo-between-exchanges")
+			}
 			switch tp.Intn(4, "kind") {
 			case 1: // interleaved form naming one of the sender's own latest exchanges
 				if x.has {
